@@ -63,6 +63,7 @@ type sStream struct {
 	// what is observed, only how long deliver waits before it answers "none".
 	expected int32
 	entered  int32
+	closed   int32 // the callback was invoked with the close signal
 	sut      *streamSUT
 	live     bool
 	returned bool
@@ -102,6 +103,9 @@ func (g *gatingStore) AddCallback(id string, fn beacon.CallbackFunc) {
 	g.s.cbid = id
 	g.CallbackStore.AddCallback(id, func(b *common.Beacon, closed bool) {
 		atomic.AddInt32(&g.s.inflight, 1)
+		if closed {
+			atomic.StoreInt32(&g.s.closed, 1)
+		}
 		atomic.AddInt32(&g.s.entered, 1)
 		defer atomic.AddInt32(&g.s.inflight, -1)
 		fn(b, closed)
@@ -641,6 +645,35 @@ func streamEngine(args []string, in *bufio.Scanner, out *bufio.Writer) {
 			case "cancel":
 				if s.returned {
 					return "bad-state"
+				}
+				if s.live && s.pending == nil {
+					// let a worker that is not held in a Send finish what it is doing: if it has consumed the close
+					// signal, SyncChain is returning on its own and the cancellation comes too late (otherwise Go's
+					// select between ctx.Done and errChan would make the answer depend on the scheduler)
+					deadline := time.Now().Add(watchdog())
+					for time.Now().Before(deadline) {
+						if len(s.ev) > 0 || (atomic.LoadInt32(&s.entered) >= atomic.LoadInt32(&s.expected) && atomic.LoadInt32(&s.inflight) == 0) {
+							break
+						}
+						time.Sleep(50 * time.Microsecond)
+					}
+					if atomic.LoadInt32(&s.closed) == 1 {
+						for i := 0; i < 16; i++ {
+							select {
+							case e := <-s.ev:
+								if e.kind == "returned" {
+									s.returned = true
+									return "returned " + classifyStreamErr(e.err)
+								}
+								if e.kind == "send" {
+									s.rel <- context.Canceled
+								}
+							case <-time.After(5 * time.Second):
+								return "stuck"
+							}
+						}
+						return "stuck"
+					}
 				}
 				s.cancel()
 				if s.pending != nil {
